@@ -1,8 +1,8 @@
 SPECIFICATION Spec
 CONSTANTS
   Calls <- AllCalls
-  BreakPair = TRUE
+  BreakPair = FALSE
   SpareLen = 320
-  SpareDev = "none"
+  SpareDev = "PadFromSpare"
 CHECK_DEADLOCK FALSE
-INVARIANT PairRelation
+INVARIANT ReadBack
